@@ -38,6 +38,14 @@ SMALL = [
 ]
 
 
+# ends for good: loss of the transport with reconnection disabled ('final'),
+# the server disconnecting the client's namespace ('final_sd')
+FINAL = ('final', 'final_sd')
+SMALL += [
+    {'prod': [1], 'recv': [5, 5], 'net': 'final_sd', 'emit': False},
+    {'prod': [0], 'recv': [5], 'net': 'final_sd', 'emit': True},
+]
+
 # reconnections that need several attempts: 'fails' attempts are refused by
 # the transport, then 'rej' attempts get their namespace rejected, then one
 # succeeds
@@ -204,6 +212,12 @@ class SyncScenario:
     def network(self):
         h = self.h
         self.lost = True
+        if self.spec['net'] == 'final_sd':
+            # the server ends the client's namespace: a DISCONNECT packet,
+            # handled by the client's message thread (this one)
+            h.c._handle_eio_message(R.encode(R.DISCONNECT, '/', None,
+                                             None)[0])
+            return
         plan_attempts(h, self.spec)
         h.lose(pump=False)
         if self.spec['net'] == 'reconnect':
@@ -272,7 +286,7 @@ class SyncScenario:
                     return 'lost_wakeup'
             elif r[0] == 'DisconnectedError':
                 ctx.count('disconnected_judged')
-                if spec['net'] != 'final':
+                if spec['net'] not in FINAL:
                     ctx.violation(None, 'DisconnectedError although the '
                                   'connection did not end for good', w)
                     return 'spurious_disconnected'
@@ -296,7 +310,7 @@ class SyncScenario:
                 ctx.violation(None, 'emit() raised %s' % self.emit_result, w)
                 return 'emit_exc'
             if self.emit_result == 'DisconnectedError' and \
-                    spec['net'] != 'final':
+                    spec['net'] not in FINAL:
                 ctx.violation(None, 'emit() raised DisconnectedError '
                               'although the connection was not ended for '
                               'good', w)
@@ -419,6 +433,10 @@ class AsyncScenario:
     async def network(self):
         await self.gate.pause('loss')
         self.lost = True
+        if self.spec['net'] == 'final_sd':
+            await self.h.c._handle_eio_message(R.encode(
+                R.DISCONNECT, '/', None, None)[0])
+            return
         plan_attempts(self.h, self.spec)
         await self.h.a_lose()
 
@@ -503,7 +521,7 @@ class AsyncScenario:
                     return 'lost_wakeup'
             elif r[0] == 'DisconnectedError':
                 ctx.count('disconnected_judged')
-                if spec['net'] != 'final' or r[2] > nret:
+                if spec['net'] not in FINAL or r[2] > nret:
                     ctx.violation(None, 'DisconnectedError too early / '
                                   'without a final end', w)
                     return 'disconnected'
@@ -514,7 +532,7 @@ class AsyncScenario:
             ctx.count('emits_judged')
             if self.emit_result not in ('ok', 'DisconnectedError') or (
                     self.emit_result == 'DisconnectedError' and
-                    spec['net'] != 'final'):
+                    spec['net'] not in FINAL):
                 ctx.violation(None, 'emit() ended with %s' %
                               self.emit_result, w)
                 return 'emit'
@@ -582,7 +600,7 @@ def run(ctx):
     ctx.require('reconnections_needing_several_attempts', 10)
     ctx.extra['scenarios'] = {}
     limit = 1200 if ctx.tier == 'quick' else 40000
-    order = [0, 5, 8, 11, 1, 6, 9, 12, 2, 7, 10, 13, 3, 4]
+    order = [0, 5, 8, 11, 14, 1, 6, 9, 12, 15, 2, 7, 10, 13, 3, 4]
     k = ctx.shard * 10**6
     # breadth first: a few schedules of every small scenario (both
     # implementations) before the deep searches, so that a slow machine does
@@ -1031,7 +1049,8 @@ def random_batch(ctx, k, n):
             break
         rng = ctx.case_rng(k)
         spec = {'prod': [rng.randint(0, 3) for _ in range(rng.choice(
-            [1, 2]))], 'net': rng.choice([None, None, 'final', 'reconnect']),
+            [1, 2]))], 'net': rng.choice([None, None, 'final', 'reconnect',
+                                          'final_sd']),
             'emit': rng.random() < 0.3}
         if spec['net'] == 'reconnect' and rng.random() < 0.5:
             spec['fails'] = rng.choice([0, 1, 2])
